@@ -142,17 +142,18 @@ def run(chk):
                             return False
 
                         def zero_split_of_new(t):
-                            """an -es ... 0 at t applied to a population that an earlier -es of the same time created"""
-                            cur, created = pc["npop"], set()
+                            """some -es at t keeps nothing, and some -es at t is applied to a population that an
+                            earlier -es of the same time created (a chain of splits through new populations)"""
+                            cur, created, chain = pc["npop"], set(), False
                             for e in sorted(pc["events"], key=lambda e: e[1]):
                                 here = math.isclose(e[1] * 4 * N0, t, rel_tol=1e-9)
                                 if e[0] == "s":
-                                    if here and e[3] == 0 and e[2] in created:
-                                        return True
+                                    if here and e[2] in created:
+                                        chain = True
                                     cur += 1
                                     if here:
                                         created.add(cur)
-                            return False
+                            return chain
 
                         def cls(t):
                             if any(math.isclose(t, z, rel_tol=1e-9) for z in zero):
